@@ -86,6 +86,20 @@ def _assign(lhs_local, op, span):
     return {"k": "assign", "lhs": {"l": lhs_local}, "rv": {"k": "use", "op": op}, "span": span, "exp": None}
 
 
+_REF = None
+
+
+def reference_units():
+    global _REF
+    if _REF is None:
+        p = os.path.join(os.path.dirname(os.path.abspath(__file__)), "reference_units.txt")
+        try:
+            _REF = {l.strip() for l in open(p) if l.strip() and not l.startswith("#")}
+        except OSError:
+            _REF = set()
+    return _REF
+
+
 def _module_of_vis(vis):
     m = re.match(r"^Restricted\(DefId\(\d+:\d+ ~ \w+\[\w+\](.*)\)\)$", vis or "")
     if not m:
@@ -123,17 +137,23 @@ class Normaliser:
                             if o.const is not None and o.const.get("fn"):
                                 addr_taken.add(o.const["fn"])
         helpers = {}
+        known = reference_units()
         for b in f.lib_bodies():
-            if b.kind not in ("Fn", "AssocFn") or b.impl_trait or b.id in self.boundaries:
-                continue
-            mod = _module_of_vis(b.vis)
-            if not mod:          # Public, pub(crate), or unknown
+            if b.kind not in ("Fn", "AssocFn") or b.id in self.boundaries or b.file.startswith("/"):
                 continue
             cs = callers.get(b.id, [])
             if not cs or b.id in addr_taken:
                 continue
-            if any(c.file != b.file for c in cs):
-                continue
+            if b.id in known and not self._works_on_lent_state(b):
+                # a function of the reference tree: a helper only if it is private to its file
+                if b.impl_trait:
+                    continue
+                mod = _module_of_vis(b.vis)
+                if not mod:          # Public, pub(crate), or unknown
+                    continue
+                if any(c.file != b.file for c in cs):
+                    continue
+            # else: new relative to the reference tree -- a helper wherever it lives and whatever its visibility
             if len([x for x in b.blocks if not x.cleanup]) > MAX_BLOCKS:
                 continue
             helpers[b.id] = b
@@ -165,6 +185,21 @@ class Normaliser:
 
         self.helpers = {h: b for h, b in helpers.items() if not reaches_self(h)}
         self.graph = graph
+
+    @staticmethod
+    def _works_on_lent_state(b):
+        """an associated / free function without a `self` receiver that mutates through `&mut` parameters: it has no state of its
+        own, it is a piece of its caller's step (State::create_topic(topics: &mut HashMap<..>, next_id: &mut u32, ..))"""
+        if b.arg_count < 1 or b.impl_trait:
+            return False
+        first = b.locals[1].get("n") if len(b.locals) > 1 else None
+        if first == "self":
+            return False
+        muts = [i for i in range(1, b.arg_count + 1) if (b.local_ty(i) or "").startswith("&mut ")]
+        if not muts:
+            return False
+        own = b.impl_self
+        return all(own is None or (b.local_ty(i) or "") != "&mut " + own for i in muts)
 
     # ------------------------------------------------------------------ order: callees first
     def order(self):
@@ -788,7 +823,11 @@ def boundaries_of(facts):
             for blk in (b.blocks if b is not None else []):
                 t = blk.term
                 if t.k == "call" and t.callee is not None and (t.callee.local or t.callee.res_local):
-                    out.add(t.callee.target)
+                    # the actor's own operations (they take the actor state); a utility the dispatcher calls
+                    # (`reply(responder, result)`) is not one
+                    tys = [b.operand_ty(a) or "" for a in t.args]
+                    if a.ty is None or any(ty in ("&mut " + a.ty, "&" + a.ty, a.ty) for ty in tys) or bid == a.start:
+                        out.add(t.callee.target)
     # async wrappers: the boundary covers the wrapper fn and its coroutine alike
     more = set()
     for x in out:
